@@ -32,7 +32,7 @@ func stress(run *ev.Run, nats *rig.NatsServer) {
 	var wg sync.WaitGroup
 	sem := make(chan struct{}, 8)
 	var mu sync.Mutex
-	totalCallers, totalFrames, stalls, cross := 0, 0, 0, 0
+	totalCallers, totalFrames, stalls, cross, decoys, bad := 0, 0, 0, 0, 0, 0
 	for i, sp := range specs {
 		wg.Add(1)
 		sem <- struct{}{}
@@ -40,7 +40,7 @@ func stress(run *ev.Run, nats *rig.NatsServer) {
 			defer wg.Done()
 			defer func() { <-sem }()
 			mu.Lock()
-			skip := stalls >= 8
+			skip := stalls >= 8 || bad >= 4 // a refuted trial costs its watchdogs: a few witnesses are enough
 			mu.Unlock()
 			if skip {
 				return
@@ -51,9 +51,13 @@ func stress(run *ev.Run, nats *rig.NatsServer) {
 			totalCallers += r.Callers
 			totalFrames += r.Frames
 			cross += r.CrossSubject
+			decoys += r.Decoys
 			mu.Unlock()
 			switch {
 			case r.Bad != "":
+				mu.Lock()
+				bad++
+				mu.Unlock()
 				run.Violation("C01:stress:"+sp.leg+":"+classify(r.Bad), r.Bad, r.Witness)
 			case r.Stall != "":
 				mu.Lock()
@@ -71,5 +75,6 @@ func stress(run *ev.Run, nats *rig.NatsServer) {
 	run.Set("stress_callers", totalCallers)
 	run.Set("stress_response_frames_injected", totalFrames)
 	run.Set("stress_nats_frames_published_on_another_requests_reply_subject", cross)
+	run.Set("stress_frames_with_another_callers_opid_pair_inside_a_header_value", decoys)
 	run.Set("stress_trials_cut_short_by_a_reader_stall_(see_C06)", stalls)
 }
